@@ -46,13 +46,18 @@ func deepRequest(in *inputSpec, good string) (raw []byte, recipe string) {
 	doc, docR := nest(shape, n), nestRecipe(shape, n)
 	seg := strings.Split(good, ".")
 	tok, tokR := "", ""
+	// pre: a string member (raw JSON text of its value) placed in front of the deep part
+	pre := ""
+	if p := in.meta("pre"); p != "" {
+		pre = `,"p":"` + p + `"`
+	}
 	switch part {
 	case "payload":
-		c := strings.TrimSuffix(string(mustJSON(validClaims())), "}")
+		c := strings.TrimSuffix(string(mustJSON(validClaims())), "}") + pre
 		tok = seg[0] + "." + b64(c+`,"a":`+doc+"}") + "." + seg[2]
 		tokR = "<header of a valid ES256 token>.base64url(" + c + `,"a":` + docR + "}).<signature of the valid token>"
 	case "header":
-		h := `{"alg":"ES256","kid":"` + harnessKid + `","typ":"JWT","a":`
+		h := `{"alg":"ES256","kid":"` + harnessKid + `","typ":"JWT"` + pre + `,"a":`
 		tok = b64(h+doc+"}") + "." + seg[1] + "." + seg[2]
 		tokR = "base64url(" + h + docR + "}).<payload of a valid token>.<its signature>"
 	}
@@ -104,6 +109,11 @@ func deepRemoteDoc(in *inputSpec, srvURL string) (doc []byte, recipe string) {
 
 type deepVariant struct{ part, shape, carrier string }
 
+// deepPreStrings are the JSON texts of string values placed in front of the deep part of a token document: contents
+// ending in one to four backslashes, escaped quotes with and without a backslash in front, and a backslash followed
+// by an ordinary character (not JSON). A scanner which looks for the deep part has to get past them.
+var deepPreStrings = []string{`x\\`, `x\\\\`, `x\\\\\\`, `x\\\\\\\\`, `a\"b`, `a\\\"b`, `a\"`, `a\qb`}
+
 // requestDeepLanes: one lane per route (so that the children run side by side). Ascending depth.
 func (g *gen) requestDeepLanes() []lane {
 	routes := []struct{ lane, route, expect string }{
@@ -133,6 +143,20 @@ func (g *gen) requestDeepLanes() []lane {
 						continue
 					}
 					add(deepVariant{ps.part, ps.shape, carrier}, n, rt.expect)
+				}
+			}
+			if n == deepDepths[len(deepDepths)-1] {
+				// the deepest documents once more behind a string member with escapes
+				for pi, pre := range deepPreStrings {
+					for _, ps := range []struct{ part, shape string }{{"payload", "list"}, {"header", "list"}, {"payload", "object"}} {
+						if !g.thorough && ps.shape != "list" {
+							continue
+						}
+						name := fmt.Sprintf("%s-%s-%d-behind-string-%d-via-form@%s", ps.part, ps.shape, n, pi, rt.route)
+						g.add(&list, inputSpec{Kind: kRequest, Class: "deep-json", Name: name, Group: ps.part + "@" + rt.route, Meta: map[string]string{
+							"port": "decision", "expect": rt.expect, "deep": strconv.Itoa(n), "shape": ps.shape, "part": ps.part, "carrier": "form",
+							"route": rt.route, "pre": pre}})
+					}
 				}
 			}
 			if ri == 0 {
